@@ -78,7 +78,15 @@ pub fn random_knobs(rng: &mut Rng) -> Knobs {
 
 pub fn random_value(rng: &mut Rng, depth: usize) -> Val {
     let sym = |k: &str| Val::Sym(symbol_value(k));
-    let leaf = |rng: &mut Rng| match rng.below(8) {
+    let leaf = |rng: &mut Rng| match rng.below(12) {
+        8 => {
+            let mut ks = vec!["ka", "kb", "kc", "zz"];
+            rng.shuffle(&mut ks);
+            Val::SymList(ks[..rng.range(2, 3)].iter().map(|k| crate::val::SymPart::Sym(symbol_value(k))).collect())
+        }
+        9 => Val::Type(rng.range(1, 20) as u8),
+        10 => Val::Byte(*rng.pick(&[0u8, 7, 255])),
+        11 => Val::External(rng.below(4)),
         0 => Val::Unit,
         1 => Val::True,
         2 => Val::Int(rng.range_i(-5, 500) as i32),
@@ -91,7 +99,8 @@ pub fn random_value(rng: &mut Rng, depth: usize) -> Val {
     if depth == 0 {
         return leaf(rng);
     }
-    match rng.below(9) {
+    match rng.below(10) {
+        9 => Val::Partial(Box::new(random_value(rng, 0)), Box::new(random_value(rng, depth - 1))),
         0 | 1 => {
             let n = rng.range(0, 4);
             Val::List((0..n).map(|_| random_value(rng, depth - 1)).collect())
